@@ -189,27 +189,76 @@ def data_tables_digest():
     return h.hexdigest()
 
 
-def must_raise(chk, sig, case, fn, watched, tables=False):
-    """an invalid call: it has to raise, and every watched object (and, with tables=True, the module data) must be
-    exactly as before; histories check the module data once at their end instead"""
+# /verif/tools/INVALID_CALL_POLICY.md: property C18 quantifies over VALID sizes / roots / shifts / observations /
+# full-rank pilots.  An invalid call is free (any exception, or accepted, object changed or not): it is only RECORDED.
+# Required afterwards: valid calls on the live objects still give results bit-identical to lone fresh objects.
+def record_invalid_call(chk, what, fn, watched):
     before = [obj_digest(o) for o in watched]
-    tables0 = data_tables_digest() if tables else None
-    chk.count("eval_error_paths")
+    chk.count("invalid_calls_made")
     try:
         fn()
+        how = "accepted"
     except (KeyboardInterrupt, SystemExit, Broken):
         raise
     except Exception as e:       # noqa
-        chk.outcome("error_path", (sig[-1], type(e).__name__))
-    else:
-        chk.fail(tuple(sig) + ("no_exception",), case, observed="returned normally", expected="an exception")
-    after = [obj_digest(o) for o in watched]
-    if after != before:
-        i = [a != b for a, b in zip(after, before)].index(True)
-        chk.fail(tuple(sig) + ("object_changed_by_failed_call",), case,
-                 observed="%s differs after the failed call" % type(watched[i]).__name__, expected="unchanged")
-    if tables and data_tables_digest() != tables0:
-        chk.fail(tuple(sig) + ("module_data_changed_by_failed_call",), case)
+        how = "raised:" + type(e).__name__
+    changed = "object_changed" if [obj_digest(o) for o in watched] != before else "object_unchanged"
+    chk.outcome("invalid_call", (what, how, changed))
+
+
+class HistoryJudge:
+    """stands in for the Check inside one history: failures are collected, and at the end
+    * a history without invalid calls reports them as they are;
+    * a history with invalid calls is re-run without them: if it fails there too the defect has nothing to do with
+      the invalid call (ordinary signatures); otherwise the signature is after_invalid_call|<what>|<relation>."""
+
+    def __init__(self, chk):
+        self.chk = chk
+        self.fails = []
+        self.invalid = None
+
+    def __getattr__(self, name):
+        return getattr(self.chk, name)
+
+    def fail(self, sig, case, observed=None, expected=None, msg=""):
+        self.fails.append((tuple(sig), case, dict(observed=observed, expected=expected, msg=msg)))
+
+    def invalid_call(self, what, fn, watched):
+        record_invalid_call(self.chk, what, fn, watched)
+        self.invalid = what                     # the most recent invalid call names the signature
+
+
+def judge_history(chk, case, body, is_invalid_event):
+    H = HistoryJudge(chk)
+    try:
+        body(H, case)
+    except (KeyboardInterrupt, SystemExit, Broken):
+        raise
+    except Exception as e:       # noqa
+        if H.invalid is None:
+            for sig, c, kw in H.fails:
+                chk.fail(sig, c, **kw)
+            raise
+        H.fail(("valid_call_raises_" + type(e).__name__,), case, observed="%s: %s" % (type(e).__name__, e),
+               expected="the result of a lone fresh object")
+    if not H.fails:
+        return
+    if H.invalid is not None:
+        stripped = dict(case, history=[e for e in case["history"] if not is_invalid_event(e)])
+        sub = HistoryJudge(Check(PID, LEVEL, ENGINE, RULE, child=True))
+        with sub.chk.guard(("x",), stripped):
+            body(sub, stripped)
+        if sub.fails or sub.chk.violations:
+            for sig, c, kw in sub.fails:           # wrong without the invalid call as well
+                chk.fail(sig, c, **kw)
+            for v in sub.chk.violations.values():
+                chk.fail(tuple(v["sig"]), stripped, observed=v["observed"], expected=v["expected"], msg=v["msg"])
+            return
+        for sig, c, kw in H.fails:
+            chk.fail(("after_invalid_call", H.invalid, sig[-1]), c, **kw)
+        return
+    for sig, c, kw in H.fails:
+        chk.fail(sig, c, **kw)
 
 
 def shape_of(a):
@@ -896,12 +945,15 @@ def fresh_user_bytes(N, root, op):
 
 
 def eval_seq_history(chk, case):
+    judge_history(chk, case, _seq_history_body, lambda i: SEQ_OPS[i][0] == "bad")
+
+
+def _seq_history_body(chk, case):
     """ONE RootSequence shared by users created in the given order; arrays handed to the caller are
     clobbered in place by the 'clobber' event; the root and every other object must be unaffected"""
     from pyphysim.reference_signals.root_sequence import RootSequence
     N, root, hist = case["N"], case["root"], case["history"]
     chk.count("eval_shared_root_histories")
-    tables0 = data_tables_digest()
     rs = RootSequence(root_index=root, size=N)
     root_before = np.array(rs.seq_array(), copy=True)
     fresh_root = np.asarray(RootSequence(root_index=root, size=N).seq_array())
@@ -920,8 +972,7 @@ def eval_seq_history(chk, case):
                 fn = lambda: DmrsUeSequence(rs, op[2], cover_code=shared_cc["[1,-1]"], normalize=True)
             else:
                 fn = lambda: DmrsUeSequence(rs, op[2], cover_code=[1, -1])
-            must_raise(chk, ("error_path", "user_sequence", "%s_%s" % (op[1], op[2])), at, fn,
-                       [rs] + [ue for _, ue, _ in live])
+            chk.invalid_call("user_sequence:%s_%s" % (op[1], op[2]), fn, [rs] + [ue for _, ue, _ in live])
             chk.outcome("history_event", op)
         elif op[0] == "clobber":
             for _, ue, _ in live:
@@ -964,8 +1015,6 @@ def eval_seq_history(chk, case):
             if not np.array_equal(v, cc_snap[k]):
                 chk.fail(("shared_root_history", "cover_code_argument_changed"), at, observed=v, expected=cc_snap[k])
                 return
-    if data_tables_digest() != tables0:
-        chk.fail(("shared_root_history", "module_tables_changed"), case, msg="after %r" % ([SEQ_OPS[i] for i in hist],))
     chk.nontriv(("hseq", N, root, tuple(hist)))
 
 
@@ -1000,6 +1049,10 @@ def est_event(N, D, ei):
 
 
 def eval_est_history(chk, case, cache):
+    judge_history(chk, case, lambda h, c: _est_history_body(h, c, cache), lambda e: e >= 5)
+
+
+def _est_history_body(chk, case, cache):
     """ONE estimator object used for several estimations (different channels, numbers of taps, antennas);
     the received array is ONE buffer per shape whose content is replaced; returned estimates are clobbered
     by the caller before the next call"""
@@ -1027,9 +1080,8 @@ def eval_est_history(chk, case, cache):
                 else:
                     fn = lambda: est_obj.estimate_channel_freq_domain(bad, 1)
                 what = ("too_long" if delta > 0 else "too_short") if ei == 5 else "wrong_dimensions"
-                must_raise(chk, ("error_path", "cazac_estimator", variant, what), dict(case, step=step), fn, [est_obj, ue_obj])
-                if not np.array_equal(bad, bad_copy):
-                    chk.fail(("error_path", "cazac_estimator", variant, "input_mutated"), dict(case, step=step))
+                chk.invalid_call("cazac_estimator:" + what, fn, [est_obj, ue_obj])
+                chk.outcome("invalid_call_input", (what, "mutated" if not np.array_equal(bad, bad_copy) else "untouched"))
             chk.outcome("estimator_history_event", (ei, step))
             continue
         L, K, rx, interf = est_event(N, D, ei)
@@ -1071,15 +1123,15 @@ def eval_est_history(chk, case, cache):
             if arr.tobytes() != snap:
                 chk.fail(("cazac_estimator", variant, "history", "earlier_result_changed"), at,
                          msg="estimate returned by call %d changed during call %d" % (j, step))
-        if any(np.shares_memory(est, o) for o in (buf, est_obj.ue_ref_seq)):
+        if any(np.shares_memory(est, o) for o in (buf, np.asarray(est_obj.ue_ref_seq))):
             chk.fail(("cazac_estimator", variant, "history", "result_aliases_input"), at)
         # the caller scribbles over the previous result, keeps the current one
         for arr, _ in kept:
             if arr.flags.writeable:
                 arr[...] = np.nan
         kept = [(est, est.tobytes())]
-        if np.asarray(est_obj.ue_ref_seq).tobytes() != ref_snapshot.tobytes() or \
-                np.asarray(b["ue"].seq_array()).tobytes() != ue_snapshot.tobytes():
+        if chk.invalid is None and (np.asarray(est_obj.ue_ref_seq).tobytes() != ref_snapshot.tobytes() or
+                                    np.asarray(b["ue"].seq_array()).tobytes() != ue_snapshot.tobytes()):
             chk.fail(("cazac_estimator", variant, "history", "reference_sequence_changed"), at)
             return
         chk.outcome("estimator_history_event", (ei, step))
@@ -1217,7 +1269,15 @@ def root_pool_unit(chk, unit):
                 eval_root_pool(chk, case, ref, tables0)
 
 
+def root_public_state(o):
+    return (np.asarray(o.seq_array()).tobytes(), int(o.size), int(o.Nzc), o.index)
+
+
 def eval_root_pool(chk, case, ref=None, tables0=None):
+    judge_history(chk, case, lambda h, c: _root_pool_body(h, c, ref, tables0), lambda i: ROOT_POOL[i][0] == "bad")
+
+
+def _root_pool_body(chk, case, ref=None, tables0=None):
     hist = case["history"]
     if ref is None:
         ref = {}
@@ -1241,10 +1301,9 @@ def eval_root_pool(chk, case, ref=None, tables0=None):
             for o2, _ in live:
                 if np.shares_memory(o2.seq_array(), o.seq_array()):
                     chk.fail(("root_pool_history", "two_objects_share_memory"), at)
-            live.append((o, obj_digest(o)))
+            live.append((o, root_public_state(o)))
         elif spec[0] == "bad":
-            must_raise(chk, ("error_path", "root_sequence", "size=%s,Nzc=%s,root=%s" % spec[1:]), at,
-                       lambda: make_root(spec), [o for o, _ in live])
+            chk.invalid_call("root_sequence:size=%s,Nzc=%s,root=%s" % spec[1:], lambda: make_root(spec), [o for o, _ in live])
         else:
             if live:
                 o, _ = live.pop()
@@ -1253,13 +1312,11 @@ def eval_root_pool(chk, case, ref=None, tables0=None):
                     a[...] = 0.5j
         chk.outcome("root_pool_event", spec)
         for o, d in live:
-            if obj_digest(o) != d:
+            if root_public_state(o) != d:
                 chk.fail(("root_pool_history", "live_object_changed"), at,
                          msg="after %r" % ([ROOT_POOL[j] for j in hist[:step + 1]],))
                 return
-    if data_tables_digest() != tables0:
-        chk.fail(("root_pool_history", "module_tables_changed"), case, msg="after %r" % ([ROOT_POOL[j] for j in hist],))
-        return
+    chk.outcome("module_data_after_root_pool_history", "unchanged" if data_tables_digest() == tables0 else "changed")
     chk.nontriv(("hroot", tuple(hist)))
 
 
@@ -1294,7 +1351,7 @@ def eval_est_pool(chk, case, cache, acts=None):
     for oi, ec, b, K, _, _ in acts:
         if oi not in objs:
             objs[oi] = make_estimator(ec["kind"], b)
-    digs = {oi: obj_digest(o) for oi, o in objs.items()}
+    digs = {oi: obj_digest(o) for oi, o in objs.items()}      # recorded as an outcome only
     for step, ai in enumerate(hist):
         oi, ec, b, K, lone, lone_shape = acts[ai]
         est = run_estimator(objs[oi], b, b["obs"], K)
@@ -1302,12 +1359,9 @@ def eval_est_pool(chk, case, cache, acts=None):
         if est.shape != lone_shape or est.tobytes() != lone:
             chk.fail(("cazac_estimator", b["variant"], "pool", "differs_from_lone_estimator"), dict(case, step=step),
                      expected="bit-identical", msg="estimator %r, after actions %r" % (EST_POOL[oi], hist[:step]))
-        for oj, o in objs.items():
-            if obj_digest(o) != digs[oj]:
-                chk.fail(("cazac_estimator", kind_info(EST_POOL[oj][1])[5], "pool", "live_estimator_changed"),
-                         dict(case, step=step), msg="estimator %r changed by a call on %r" % (EST_POOL[oj], EST_POOL[oi]))
-                return
         chk.outcome("estimator_pool_action", (ai, step))
+    chk.outcome("estimator_pool_objects", "unchanged" if all(obj_digest(o) == digs[oi] for oi, o in objs.items())
+                else "internal_state_changed")
     chk.nontriv(("hpool", tuple(hist)))
 
 
@@ -1324,8 +1378,7 @@ def est_pool_unit(chk, unit, cache):
             case = {"part": "HP", "history": list(hist), "off_h": off_h, "off_i": off_i}
             with chk.guard(("cazac_estimator", "pool"), case):
                 eval_est_pool(chk, case, cache, acts)
-    if data_tables_digest() != tables0:
-        chk.fail(("cazac_estimator", "pool", "module_tables_changed"), {"part": "HP", "history": []})
+    chk.outcome("module_data_after_estimator_pool", "unchanged" if data_tables_digest() == tables0 else "changed")
 
 
 def est_big_unit(chk, unit, cache):
@@ -1372,16 +1425,17 @@ def eval_ls_error(chk, case):
         Yb, sb = np.stack([H @ good, H @ bad, H @ good]), np.stack([good, bad, good])   # the 2nd realisation is singular
     first = np.asarray(compute_ls_estimation(Yg, sg))
     Yc, sc = Yb.copy(), sb.copy()
-    must_raise(chk, ("error_path", "ls_estimation", form, "singular_" + which), case,
-               lambda: compute_ls_estimation(Yb, sb), [], tables=True)
-    if not (np.array_equal(Yb, Yc) and np.array_equal(sb, sc)):
-        chk.fail(("error_path", "ls_estimation", form, "input_mutated"), case)
+    # singular pilots are OUTSIDE the property ("any full-rank pilot matrix"): whatever the call does is recorded only
+    record_invalid_call(chk, "ls_estimation:%s:singular_%s" % (form, which), lambda: compute_ls_estimation(Yb, sb), [])
+    chk.outcome("invalid_call_input", ("ls_singular", "untouched" if np.array_equal(Yb, Yc) and np.array_equal(sb, sc) else "mutated"))
+    record_invalid_call(chk, "ls_estimation:%s:pilot_count_mismatch" % form,
+                        lambda: compute_ls_estimation(Yg, np.ones(np.shape(sg)[:-1] + (Np + 1,), dtype=complex)), [])
+    # required: the next VALID call is as exact as before
     again = np.asarray(compute_ls_estimation(Yg, sg))
+    chk.count("eval_ls_cases")
     if again.shape != first.shape or again.tobytes() != first.tobytes():
-        chk.fail(("error_path", "ls_estimation", form, "later_result_differs"), case)
-    # wrong shapes
-    must_raise(chk, ("error_path", "ls_estimation", form, "pilot_count_mismatch"), case,
-               lambda: compute_ls_estimation(Yg, np.ones(np.shape(sg)[:-1] + (Np + 1,), dtype=complex)), [])
+        chk.fail(("after_invalid_call", "ls_estimation:singular_" + which, "later_valid_result_differs"), case,
+                 observed="max difference %.6g" % numerics.err(again, first), expected="bit-identical to the result before")
 
 
 def seq_hist_unit(chk, unit):
@@ -1511,7 +1565,7 @@ def ls_ctx_unit(chk, unit):
     ctxs += [{"layout": l} for l in LS_LAYOUTS]
     for which, _ in ls_error_cases(Nt, Np, form):
         case = {"part": "LE", "Nt": Nt, "Np": Np, "form": form, "which": which, "off_s": off_s, "off_h": off_h}
-        with chk.guard(("error_path", "ls_estimation", form), case):
+        with chk.guard(("after_invalid_call", "ls_estimation", form), case):
             eval_ls_error(chk, case)
     for pidx in range(S):
         for Nr in (1, 2, 3, 4):
@@ -1763,6 +1817,9 @@ def main(chk: Check):
     chk.assume("num_taps_to_keep = K keeps the delay taps 0..K (K+1 taps), as the implementation does; "
                "'delay spread fits in the kept taps' means #taps <= K+1")
     chk.assume("interferers' responses 'fit their shift window': #taps <= N/D and K+1 <= N/D, D = 8 (SRS) / 12 (DMRS), D | N")
+    chk.assume("invalid calls (shift out of range, size not allowed, wrong-shape observation, singular pilots) are outside the "
+               "property: what they do is recorded as an outcome only; required is that later VALID calls on the live objects "
+               "stay bit-identical to lone fresh objects (signature after_invalid_call|what|relation)")
     chk.assume("sizes 12 and 24 are QPSK table sequences, not Zadoff-Chu: only amplitude/length/shift relations apply; "
                "the prime selection for 12 and 24 is checked on the selection function only")
     chk.assume("comb pattern: pilot k sits on subcarrier multiplier*k (offset 0); channel static over both cover-code slots")
@@ -1804,7 +1861,7 @@ def main(chk: Check):
     chk.require_outcomes("estimator_context", 40)
     chk.require_outcomes("ls_context", 30)
     chk.require_outcomes("history_event", 10)
-    chk.require_outcomes("error_path", 12)
+    chk.require_outcomes("invalid_call", 12)
     chk.require_outcomes("root_pool_event", 16)
     chk.require_outcomes("estimator_pool_action", 30)
     chk.require_outcomes("largest_size", 1)
@@ -1862,7 +1919,7 @@ def replay(case, chk: Check):
             eval_est_pool(chk, c, cache)
     elif part == "LE":
         c = {k: case[k] for k in ("part", "Nt", "Np", "form", "which", "off_s", "off_h")}
-        with chk.guard(("error_path", "ls_estimation", c["form"]), c):
+        with chk.guard(("after_invalid_call", "ls_estimation", c["form"]), c):
             eval_ls_error(chk, c)
     elif part == "HS":
         c = {k: case[k] for k in ("part", "N", "root", "history")}
